@@ -38,7 +38,17 @@ func CheckRecursion(rootTypeName string, rootSchema *ischema.ISchema) error {
 			// Obviously, root type was visited.
 			rootTypeName: {},
 		},
-		path: []string{rootTypeName},
+		path:  []string{rootTypeName},
+		roots: map[string]struct{}{rootTypeName: {}},
+	}
+
+	// The checked schema may be registered as a user type of itself, under any
+	// name: every such name is the root type.
+	for name, t := range rootSchema.TypesList() {
+		if t.Schema == rootSchema {
+			rc.roots[name] = struct{}{}
+			rc.visited[name] = struct{}{}
+		}
 	}
 
 	return rc.check(rootSchema.RootNode(), rootSchema.TypesList())
@@ -47,6 +57,9 @@ func CheckRecursion(rootTypeName string, rootSchema *ischema.ISchema) error {
 type recursionChecker struct {
 	// visited a set of visited types.
 	visited map[string]struct{}
+
+	// roots the names of the checked (root) type.
+	roots map[string]struct{}
 
 	// path a path to current type.
 	// Necessary for building an error message 'cause user should understand where
@@ -194,7 +207,7 @@ func (c *recursionChecker) checkType(typeName string, types map[string]ischema.T
 	if !c.visit(typeName) {
 		err := c.createError()
 		c.path = c.path[:len(c.path)-1]
-		if typeName != c.path[0] && c.objects > 0 {
+		if _, isRoot := c.roots[typeName]; !isRoot && c.objects > 0 {
 			// A cycle among other types. The checked (root) type does not
 			// require itself through it, and the example builder cuts such
 			// cycles off by leaving a property out, so this is not reported.
